@@ -10,27 +10,27 @@ PROPS = {
     "C01": {"rule": "curve.add/double/smul/sbmul/oncurve on a structured point pool (multiples of G by boundary scalars, negatives, endomorphism images, infinity) x structured scalar byte strings (empty, zero, >=N, >32 bytes, single bits, NAF carry patterns, table rows); real code vs Lean affine group law. Plus stream C01J: jac.add/double/addv1-4/dblv1-2/toaffine (hooks, raw word vectors) on the pool in every Jacobian representation class x coordinate dressing (normalised, raw Mul2 output, NegateVal output, +P/carries) x aliasing pattern, jac.oncurve/decompress, table.get; real code vs the IR regenerated from bec/btcec.go run over the regenerated field ops.",
             "gens": ["C01", "C01J", "C10"],
             "trivial": lambda op, res: False},
-    "C02": {"shared": ["Prims"], "gens": ["C02", "C10"], "rule": "sign d h over boundary keys (1, 2, N-1, N-2, leading-zero keys) x hashes of length 0..100 and values 0, N-1, N, N+1, 2^256-1; (r,s) compared with the Lean RFC 6979 model; repeated call must agree.",
+    "C02": {"shared": ["Prims"], "gens": ["C02", "C10", "C01", "C01J"], "rule": "sign d h over boundary keys (1, 2, N-1, N-2, leading-zero keys) x hashes of length 0..100 and values 0, N-1, N, N+1, 2^256-1; (r,s) compared with the Lean RFC 6979 model; repeated call must agree.",
             "trivial": lambda op, res: False},
-    "C03": {"gens": ["C03", "C10"], "rule": "verify on honest signatures, (r,N-s) twins, one-field perturbations, range violations, negatives, r+N/s+N aliases and signatures constructed for chosen u1,u2 (doubling branch, infinity, e=0, hash>=N).",
+    "C03": {"gens": ["C03", "C10", "C01", "C01J"], "rule": "verify on honest signatures, (r,N-s) twins, one-field perturbations, range violations, negatives, r+N/s+N aliases and signatures constructed for chosen u1,u2 (doubling branch, infinity, e=0, hash>=N).",
             "trivial": lambda op, res: False},
-    "C04": {"shared": ["Prims"], "rule": "xk histories: master from seeds of every length 0..80, child at boundary indices, short-key subtrees, depth-255 chains, neuter/child commutation, all registered networks; every live key observed (String, depth, fingerprint, address, pub, priv) after every step.",
+    "C04": {"shared": ["Prims"], "gens": ["C04", "C01J"], "rule": "xk histories: master from seeds of every length 0..80, child at boundary indices, short-key subtrees, depth-255 chains, neuter/child commutation, all registered networks; every live key observed (String, depth, fingerprint, address, pub, priv) after every step.",
             "trivial": lambda op, res: res.startswith("ok e") and "/" not in res},
-    "C05": {"gens": ["C05", "C10"], "rule": "parsepub over every length 0..70 x prefix byte, valid u/c/h encodings of the point pool, parity flips, off-curve, x/y aliases +P, boundary coordinates; serpub; privbytes for scalars of 0..32 bytes.",
+    "C05": {"gens": ["C05", "C10", "C01", "C01J"], "rule": "parsepub over every length 0..70 x prefix byte, valid u/c/h encodings of the point pool, parity flips, off-curve, x/y aliases +P, boundary coordinates; serpub; privbytes for scalars of 0..32 bytes.",
             "trivial": lambda op, res: op.startswith("parsepub") and res == "err" and len(op.split()[1]) not in (66, 130)},
     "C06": {"rule": "der.ser over all (r,s) byte-length pairs and boundary values; der.parse/der.lax on valid encodings, every single-field perturbation (tags, lengths incl. 0xfe/0xff, padding, sign bit, r/s at 0,N-1,N,N+1, trailing bytes), pairs of perturbations, exhaustive short strings over {00,01,02,30,7f,80} + valid tail.",
             "trivial": lambda op, res: res == "err" and len(op.split()[1]) < 16},
     "C07": {"shared": ["Prims"], "rule": "bip39.mn for entropy lengths 0..40 (all-zero, all-one, random) x passphrases (empty, ASCII, decomposed non-ASCII, long); bip39.seed on generated sentences, every list word, non-words before/between/after list words, separators (tab, NBSP, U+3000, invalid UTF-8), wrong counts.",
             "trivial": lambda op, res: False},
-    "C08": {"shared": ["Prims"], "rule": "xk histories with String->NewKeyFromString->derive again (op t), corrupted payloads with recomputed checksum (scalar 0/N/N+1, key byte 0/1/4/5, off-curve x, x>=P), wrong lengths; path grammar fuzz (empty components, +1, 1'', leading zeros, 2^31-1', 2^31', 2^32-1, 2^32, long numbers); dpath.fwd/back on boundary and random u64.",
+    "C08": {"shared": ["Prims"], "gens": ["C08", "C13"], "rule": "xk histories with String->NewKeyFromString->derive again (op t), corrupted payloads with recomputed checksum (scalar 0/N/N+1, key byte 0/1/4/5, off-curve x, x>=P), wrong lengths; path grammar fuzz (empty components, +1, 1'', leading zeros, 2^31-1', 2^31', 2^32-1, 2^32, long numbers); dpath.fwd/back on boundary and random u64.",
             "trivial": lambda op, res: False},
-    "C11": {"shared": ["Prims"], "gens": ["C11", "C10"], "rule": "ecdh on key pairs incl. searched pairs with leading-zero shared x; ecies.enc with forced tape vs Lean encryptor (byte-exact), ecies.dec of Lean- and Go-made ciphertexts, every byte position x 3 bit patterns, truncation/extension, header edits, negated ephemeral Y, wrong keys incl. N-d; cfb.enc/dec for 16/24/32-byte keys.",
+    "C11": {"shared": ["Prims"], "gens": ["C11", "C10", "C01", "C01J"], "rule": "ecdh on key pairs incl. searched pairs with leading-zero shared x; ecies.enc with forced tape vs Lean encryptor (byte-exact), ecies.dec of Lean- and Go-made ciphertexts, every byte position x 3 bit patterns, truncation/extension, header edits, negated ephemeral Y, wrong keys incl. N-d; cfb.enc/dec for 16/24/32-byte keys.",
             "trivial": lambda op, res: False},
-    "C12": {"shared": ["Prims"], "gens": ["C12", "C10"], "rule": "compact.sign for keys x hashes x flags; compact.recover on honest signatures, every header byte, r/s range violations, tiny r with recid 2/3, r with no curve point, constructed infinity (R=kG, s=e/k), all other lengths 0..130, random.",
+    "C12": {"shared": ["Prims"], "gens": ["C12", "C10", "C01", "C01J"], "rule": "compact.sign for keys x hashes x flags; compact.recover on honest signatures, every header byte, r/s range violations, tiny r with recid 2/3, r with no curve point, constructed infinity (R=kG, s=e/k), all other lengths 0..130, random.",
             "trivial": lambda op, res: op.startswith("compact.recover") and res == "err" and len(op.split()[1]) != 130},
     "C13": {"shared": ["Prims"], "rule": "b58.enc exhaustive <=1 byte and a stride of the 2-byte space (all in thorough), leading zeros x bodies, random to 300 bytes; b58.dec exhaustive <=2 alphabet chars, every byte value at every position of a valid string; b58.cenc/cdec valid, each checksum bit flipped, decoded lengths 0..8.",
             "trivial": lambda op, res: False},
-    "C14": {"shared": ["Prims"], "rule": "wif.enc/dec over scalars with leading zeros x both flags x network bytes; each checksum bit, marker values 0/2/255, decoded lengths 28..46; addr for every version byte; hash helpers on padding-edge lengths vs independent Lean SHA-256/RIPEMD-160.",
+    "C14": {"shared": ["Prims"], "gens": ["C14", "C13"], "rule": "wif.enc/dec over scalars with leading zeros x both flags x network bytes; each checksum bit, marker values 0/2/255, decoded lengths 28..46; addr for every version byte; hash helpers on padding-edge lengths vs independent Lean SHA-256/RIPEMD-160.",
             "trivial": lambda op, res: False},
     "C15": {"shared": ["Prims"], "gens": ["C15", "C08", "C04"], "rule": "all decoders on the negative generators of C05/C06/C08/C11/C12/C13/C14/C07 plus raw fuzz (lengths 0..300, structured prefixes), non-UTF-8 text, 4 nil/non-nil envelope combinations x malformed hex; a Go panic is reported as `panic` and never matches the model.",
             "trivial": lambda op, res: False},
@@ -42,7 +42,7 @@ PROPS = {
             "trivial": lambda op, res: False},
     "C19": {"shared": ["Prims"], "rule": "rng.key/seed/entropy, ecies.enc, cfb.enc, env.new with crypto/rand.Reader replaced by a logging tape: outputs must equal the Lean tape consumers byte for byte; failing reads; sign before/after RNG consumption.",
             "trivial": lambda op, res: False},
-    "C20": {"shared": ["Prims"], "gens": ["C20", "C03"], "rule": "(plus the C03 verify stream: IsValid inherits Signature.Verify) env.new on payloads from a JSON value grammar (quotes, backslashes, control and non-ASCII characters, <>&, nesting, numbers) incl. validity after marshal/unmarshal; env.valid over 3 mime types, every payload character altered, r+-1, s+-1, N-s twin, swapped key, 4 present/absent combinations x valid/malformed hex.",
+    "C20": {"shared": ["Prims"], "gens": ["C20", "C03", "C01J"], "rule": "(plus the C03 verify stream: IsValid inherits Signature.Verify) env.new on payloads from a JSON value grammar (quotes, backslashes, control and non-ASCII characters, <>&, nesting, numbers) incl. validity after marshal/unmarshal; env.valid over 3 mime types, every payload character altered, r+-1, s+-1, N-s twin, swapped key, 4 present/absent combinations x valid/malformed hex.",
             "trivial": lambda op, res: False},
     "C09": {"extra": [wrap_search], "gens": ["C09", "C01", "C01J"], "rule": "field.* ops through build-tag hooks on word vectors at 0/1/prime-word/mask boundaries and magnitude limits, vs the Lean definitions regenerated from bec/field.go.",
             "trivial": lambda op, res: False},
